@@ -107,13 +107,14 @@ def r_substring(s, start, count=None):
     """SQL standard / PostgreSQL: positions are 1-based, the window [start, start+count) is
     intersected with the string; a negative count is an error (some engines return '' or count
     backwards: all three accepted, but never characters *after* the window)."""
+    lenient = [ERR] if start <= 0 else []      # "the index is 1-based": rejecting a non-positive index is acceptable too
     if count is None:
-        return [s[max(start, 1) - 1:]]
+        return [s[max(start, 1) - 1:]] + lenient
     if count < 0:
         back = s[max(start + count, 1) - 1:max(start, 1) - 1]   # DuckDB-style backwards window
         return [ERR, "", back]
     end = start + count
-    return [s[max(start, 1) - 1:max(end, 1) - 1]]
+    return [s[max(start, 1) - 1:max(end, 1) - 1]] + lenient
 
 
 def r_left(s, n):
@@ -130,16 +131,17 @@ def r_right(s, n):
 
 def _pad(s, n, pad, left):
     if n < 0:
-        return ["", ERR]          # PostgreSQL clamps a negative count to 0; rejecting it is as good
-    if len(s) >= n:
+        outs = ["", ERR]          # PostgreSQL clamps a negative count to 0; rejecting it is as good
+    elif len(s) >= n:
         outs = [s[:n]]
-        if pad == "" and s[:n] != s:
-            outs.append(s)        # "nothing to pad with": truncation is not documented either way
-        return outs
-    if pad == "":
-        return [s]
-    fill = (pad * (n // len(pad) + 1))[:n - len(s)]
-    return [fill + s if left else s + fill]
+    elif pad == "":
+        outs = [s]
+    else:
+        fill = (pad * (n // len(pad) + 1))[:n - len(s)]
+        outs = [fill + s if left else s + fill]
+    if pad == "" and s not in outs:
+        outs.append(s)            # "nothing to pad with": whether the string is still cut to `count` is not documented
+    return outs
 
 
 def r_lpad(s, n, pad=" "):
